@@ -11,6 +11,10 @@ import mir
 from numabs import Aff, le, const
 
 
+OPTRAITS = {"std::ops::Shl::shl": "Shl", "std::ops::Shr::shr": "Shr", "std::ops::Sub::sub": "Sub", "std::ops::Add::add": "Add",
+            "std::ops::BitAnd::bitand": "BitAnd", "std::ops::BitOr::bitor": "BitOr", "std::ops::BitXor::bitxor": "BitXor", "std::ops::Not::not": "Not"}
+
+
 class Ranges:
     def __init__(self, num, store, entry_ranges=None):
         self.num = num
@@ -158,10 +162,13 @@ class Ranges:
                 return (lo, hi)
             if op in ("Sub", "Add", "Mul", "Div", "Rem"):
                 # arithmetic: (1 << n) - 1 is the mask [0, n)
-                if op == "Sub" and t[3][0] == "const" and t[3][1] == 1 and t[2][0] == "binop" and t[2][1] == "Shl" and t[2][2][0] in ("const", "uneval"):
-                    one = self.rng(t[2][2])
-                    kk = num.aff(t[2][3])
-                    if one is not None and kk is not None and one[1].is_const() and one[1].k == 1:
+                if op == "Sub" and t[2][0] == "binop" and t[2][1] == "Shl" and t[2][2][0] in ("const", "uneval") and t[3][0] in ("const", "uneval"):
+                    one, sub1 = self.rng(t[2][2]), self.rng(t[3])
+                    kk = self.aff_exact(t[2][3])
+                    is1 = lambda r: r is not None and r[0].is_const() and r[0].k == 0 and r[1].is_const() and r[1].k == 1
+                    w = self.width(t[2][2])
+                    # (1 << k) - 1 with k < width (an overflowing shift would panic or wrap: not a mask then)
+                    if is1(one) and is1(sub1) and kk is not None and w is not None and self.ent_le(kk, const(w - 1)):
                         return (const(0), kk)
                 return self.full(t)
             return self.full(t)
@@ -193,6 +200,16 @@ class Ranges:
                             return (lo + kk, hi + kk)
                         if self.ent_le(const(w), lo + kk) and self.ent_le(kk, const(w)):
                             return (lo + kk - const(w), hi + kk - const(w))
+            return self.full(t)
+        if k == "ret" and t[2].startswith("std::ops::") and t[2] in OPTRAITS:
+            # operator-trait call on a word type (generic code): same meaning as the primitive operator
+            for e in getattr(num, "ctx_events", []):
+                if e[0] == "call" and e[3] == t:
+                    args = e[8] if len(e) > 8 and e[8] else e[2]
+                    if len(args) == 2 and OPTRAITS[t[2]] != "Not":
+                        return self.rng(("binop", OPTRAITS[t[2]], args[0], args[1]))
+                    if len(args) == 1 and OPTRAITS[t[2]] == "Not":
+                        return self.rng(("unop", "Not", args[0]))
             return self.full(t)
         if k == "ret" and t[2].endswith("::wrapping_sub"):
             for e in getattr(num, "ctx_events", []):
